@@ -293,7 +293,11 @@ def _triage(rep: Report, label: str, devs: List[Any], with_borders: bool) -> Non
     def cyclic_first(d: Any) -> int:
         return 0 if "tail" in d[0] and has_sizes(d) == 0 else 1
 
-    for desc, n, edges, inst, diff, sizes, ret_ids in sorted(devs, key=lambda d: (cyclic_first(d) if len(devs) > 20 else 1, d[1], has_sizes(d), len(d[2]))):
+    def symbolic(d: Any) -> int:
+        return 1 if isinstance(d[5], tuple) or (isinstance(d[5], list) and any(isinstance(x, tuple) for x in d[5])) else 0
+
+    # instances with the caller's own size variables are the most expensive to project: they are tried last
+    for desc, n, edges, inst, diff, sizes, ret_ids in sorted(devs, key=lambda d: (symbolic(d), cyclic_first(d) if len(devs) > 20 else 1, d[1], has_sizes(d), len(d[2]))):
         if time.time() - t0 > 60:
             break
         symbolic = isinstance(sizes, tuple) or (isinstance(sizes, list) and any(isinstance(x, tuple) for x in sizes))
